@@ -185,6 +185,8 @@ def run(ctx):
         if r.status != 0 or not want or r.stdout.decode("utf-8", "replace") != want[0]:
             viol(si, vn, "CLI flags %s do not produce what the library produces for the option" % r.argv, {"cli_stderr": r.stderr.decode("utf-8", "replace")[:300]})
     ctx.cov["disagreements_checked"] = len(b.cases) + len(cli_runs)
+    from vlib import regress
+    regress.wide_options(ctx)          # the shape-agnostic search step (DESIGN.md 12.8)
     ctx.cov["rule"] = ("a titled schema exercising every naming source, 4 special schemas, random in-guard schemas with titles; each generated under 9 option sets differing from "
                        "the base in one option (only-models with/without extra-imports, two tag lists, capitalisations, struct-name-from-title, root-type mapping, extra-imports); "
                        "go/parser projections compared: types+fields+tags, methods, functions, vars, consts, imports, method bodies; only-models outputs compiled; flag wiring: "
